@@ -26,7 +26,7 @@ Fixpoint first_reject (check : heap -> ann -> value -> outcome unit) (h : heap) 
   | f :: rest =>
     match getattr h r (f_name f) with
     | Some v => match check h (f_ann f) v with Ok _ => first_reject check h rest r | Raise e => Some e end
-    | None => Some AttributeErrorC
+    | None => Some PTypeCheckC          (* a field without value does not conform *)
     end
   end.
 
